@@ -97,7 +97,9 @@ class C24(Prop):
 
         def flt(values, most):
             some = st.lists(st.sampled_from(values), min_size=1, max_size=most, unique=True)
-            return st.one_of(st.none(), st.none(), st.none(), st.none(), st.just([]), some, some, some)
+            # filter lists are plain lists: a value may be listed twice ("matches if any of the ids match")
+            rep = st.lists(st.sampled_from(values), min_size=2, max_size=most + 1)
+            return st.one_of(st.none(), st.none(), st.none(), st.none(), st.just([]), some, some, some, rep)
 
         query = st.tuples(flt(HIDS, 4), flt(RUNIDS, 8), flt(WFS, 2), flt(STATUSES, 3), st.sampled_from([None, None, None, True, False])).map(list)
         up = st.tuples(
